@@ -526,10 +526,13 @@ class Gen:
         self.tables = tables
         self.pinned = None
         self.user = rng.choice(USERS)
+        self.calm = False   # "cap" sessions: one username, right service, mostly failing credentials
 
     # -- environments
     def code(self, bias=None):
         r = self.rng.random()
+        if self.calm:
+            return 2 if r < 0.8 else (1 if r < 0.97 else 0)
         bias = bias or {"c16": (0.12, 0.15), "c15": (0.25, 0.2), "c14": (0.35, 0.15)}[self.profile]
         if r < bias[0]:
             return 0
@@ -585,6 +588,8 @@ class Gen:
         rng = self.rng
         r = rng.random()
         switch = {"c16": 0.10, "c15": 0.04, "c14": 0.05}[self.profile]
+        if self.calm:
+            return self.user
         if r < switch:
             return rng.choice([u for u in USERS if u != self.user])
         if r < switch + 0.02:
@@ -595,11 +600,13 @@ class Gen:
         rng = self.rng
         user = self.pick_user()
         r = rng.random()
-        service = b"ssh-connection" if r < (0.93 if self.profile != "c16" else 0.9) else rng.choice(
+        service = b"ssh-connection" if (self.calm or r < (0.93 if self.profile != "c16" else 0.9)) else rng.choice(
             [b"ssh-userauth", b"", b"ssh-connection ", b"SSH-CONNECTION", b"\xff\xff"])
         weights = {"c16": [3, 5, 3, 2, 1, 1, 1], "c15": [2, 3, 2, 2, 1, 1, 1], "c14": [1, 3, 6, 3, 3, 3, 1]}[self.profile]
         method = rng.choices(METHODS, weights)[0]
-        if rng.random() < 0.01:
+        if self.calm:
+            method = rng.choices(METHODS, [4, 6, 3, 2, 0, 1, 1])[0]
+        elif rng.random() < 0.01:
             method = rng.choice(BAD_UTF8)
         head = S(user, service, method)
         meta = {"kind": "auth", "user": user, "service": service, "method": method}
@@ -621,7 +628,7 @@ class Gen:
         else:
             body = b""
         payload = head + body
-        if rng.random() < 0.04:  # malformed: truncated somewhere
+        if not self.calm and rng.random() < 0.04:  # malformed: truncated somewhere
             payload = payload[: rng.randrange(0, len(payload) + 1)]
             meta["truncated"] = True
         if any(t.startswith("key=") for t in extra_tok):
@@ -750,8 +757,9 @@ class Gen:
         rng = self.rng
         prof = self.profile
         n = rng.randrange(1, max_steps + 1)
-        if prof == "c16" and rng.random() < 0.45:
-            n = max_steps + rng.randrange(0, 4)  # long enough to reach the failure cap
+        if prof == "c16" and rng.random() < 0.3:
+            self.calm = True
+            n = rng.randrange(10, 17)  # long enough to reach the failure cap
         steps = []
         for i in range(n):
             e = self.env()
@@ -760,6 +768,10 @@ class Gen:
             w_conn = {"c16": 0.04, "c15": 0.45, "c14": 0.06}[prof]
             if i == 0 and rng.random() < 0.6:
                 p, payload, tok, meta = 5, S(b"ssh-userauth"), [], {"kind": "service"}
+            elif self.calm and r < 0.93:
+                p, payload, tok, meta = self.auth_request(sid)
+            elif self.calm:
+                p, payload, tok, meta = rng.choice([(2, b"", [], {"kind": "misc"}), (61, S(1, b"a"), [], {"kind": "info-response"})])
             elif r < w_auth:
                 p, payload, tok, meta = self.auth_request(sid)
             elif r < w_auth + w_conn:
@@ -802,6 +814,9 @@ def run_real(make_steps, gss_kex):
             st["seq"] = seq
             o = sess.step(st["ptype"], st["payload"], st["env"])
             obs.append(o)
+        w = sess.wire_consistent()
+        if w is not None and obs:
+            obs[-1]["wire"] = w
         return sess.session_id, steps, obs
     finally:
         sess.close()
@@ -812,7 +827,7 @@ def canon_real(o, prev_exc):
     cbs = [c for c in o["cbs"] if not c.startswith("gss:")]
     return {"cbs": "|".join(cbs), "sent": ",".join(x.hex() for x in o["sent"]),
             "active": int(o["active"]), "authed": int(o["authed"]), "chans": o["nchan"],
-            "excname": exc}
+            "excname": exc, "wire": o.get("wire")}
 
 
 def driver_lines(sid, steps, gss_kex):
@@ -914,3 +929,57 @@ def compare_traces(ctx, traces, what):
                     ctx.disagree("%s: step %d differs in %s" % (what, i, ",".join(diffs)), describe(tr, i), m, r)
                 break
     return n_dis
+
+
+# ---------------------------------------------------------------------------------------------
+# helpers for the model-independent oracles
+# ---------------------------------------------------------------------------------------------
+CRED_PREFIXES = ("none(", "password(", "publickey(", "interactive(", "iresponse(", "gssmic(", "gsskeyex(")
+
+
+def parse_auth(payload):
+    """(user, service, method) of a USERAUTH_REQUEST payload, or None if a text field is not UTF-8
+    (own parser: length-prefixed strings, short reads zero-padded like Message.get_bytes)"""
+    out = []
+    pos = 0
+    for _ in range(3):
+        raw = payload[pos:pos + 4]
+        pos += len(raw)
+        n = int.from_bytes(raw + b"\x00" * (4 - len(raw)), "big")
+        s = payload[pos:pos + n]
+        pos += len(s)
+        if len(s) < n < (1 << 20):
+            s = s + b"\x00" * (n - len(s))
+        try:
+            s.decode("utf-8")
+        except UnicodeDecodeError:
+            return None
+        out.append(s)
+    return tuple(out)
+
+
+def cb_list(r):
+    return [c for c in r["cbs"].split("|") if c]
+
+
+def cred_cbs(r):
+    return [c for c in cb_list(r) if c.startswith(CRED_PREFIXES)]
+
+
+def cb_user(c):
+    """hex of the username a credential callback was asked about (None for iresponse)"""
+    if c.startswith("iresponse("):
+        return None
+    return c[c.index("(") + 1:].split(",")[0].rstrip(")")
+
+
+def sent_list(r):
+    return [bytes.fromhex(x) for x in r["sent"].split(",") if x]
+
+
+def is_npf(m):
+    return m[:1] == b"\x33" and m[-1:] == b"\x00"
+
+
+def is_disconnect(m, code=None):
+    return m[:1] == b"\x01" and (code is None or m[1:5] == code.to_bytes(4, "big"))
